@@ -272,7 +272,7 @@ def block_inv(ctx, blk):
                patterns=[z3.Select(E, j)])))
 
 
-P.verify(fn(
+BLOCK_RTFL = P.verify(fn(
     'sfc_models.equation.EquationBlock.ReplaceTokensFromLookup',
     args=dict(self=Ref('EquationBlock'), lookup=Dict(STR, STR)),
     modifies=['f.Term.Term'],
